@@ -507,7 +507,7 @@ func runMesh3(t testingT, src, sched *choice.Source, st *Stats) (fs []Finding) {
 	}
 	for step := 0; step < n; step++ {
 		was := h.real.VerifHasVertexIndex()
-		op := src.Intn(16)
+		op := src.Intn(19) // (recorded tapes hold reduced values, so the range may grow)
 		switch op {
 		case 0, 1, 2:
 			t := h.newFace(src)
@@ -627,6 +627,85 @@ func runMesh3(t testingT, src, sched *choice.Source, st *Stats) (fs []Finding) {
 				return f
 			}
 			h.log("full query check")
+		case 16: // AddQuad: two faces over four pool vertices
+			var q [4]model3d.Coord3D
+			for i := range q {
+				q[i] = h.pool[src.Intn(len(h.pool))]
+			}
+			before := map[*tri]bool{}
+			h.real.Iterate(func(t *tri) { before[t] = true })
+			ret := h.real.AddQuad(q[0], q[1], q[2], q[3])
+			var added []*tri
+			h.real.Iterate(func(t *tri) {
+				if !before[t] {
+					added = append(added, t)
+				}
+			})
+			if len(added) != 2 {
+				return h.fail("addquad", fmt.Sprintf("AddQuad added %d faces", len(added)))
+			}
+			// either diagonal may split the quad; orientation p1->p2->p3->p4 is kept
+			rot := func(t tri) string {
+				best := ""
+				for r := 0; r < 3; r++ {
+					if k := fmt.Sprint(faceValues([]*tri{{t[r], t[(r+1)%3], t[(r+2)%3]}})); best == "" || k < best {
+						best = k
+					}
+				}
+				return best
+			}
+			pair := func(a, b tri) string {
+				x, y := rot(a), rot(b)
+				if y < x {
+					x, y = y, x
+				}
+				return x + y
+			}
+			got := pair(*added[0], *added[1])
+			if got != pair(tri{q[0], q[1], q[3]}, tri{q[1], q[2], q[3]}) && got != pair(tri{q[0], q[1], q[2]}, tri{q[0], q[2], q[3]}) {
+				return h.fail("addquad", fmt.Sprintf("AddQuad(%v) added faces that are not the two halves of that quad", q))
+			}
+			if !(ret[0] == added[0] && ret[1] == added[1] || ret[0] == added[1] && ret[1] == added[0]) {
+				return h.fail("addquad", "AddQuad did not return the two faces it added")
+			}
+			h.list = append(h.list, sortedFaces(added)...)
+			h.log("AddQuad")
+		case 17: // IterateSorted: every current face exactly once, in the order of the comparison
+			var seen []*tri
+			less := func(a, b *tri) bool { return fmt.Sprint(*a) < fmt.Sprint(*b) }
+			h.real.IterateSorted(func(t *tri) { seen = append(seen, t) }, less)
+			if !samePtrSet(seen, h.list) {
+				return h.fail("iteratesorted", "IterateSorted did not visit exactly the current faces")
+			}
+			for i := 1; i < len(seen); i++ {
+				if less(seen[i], seen[i-1]) {
+					return h.fail("iteratesorted", fmt.Sprintf("IterateSorted visited face %d before a smaller one", i-1))
+				}
+			}
+			h.log("IterateSorted")
+		case 18: // Center and Transform: derived meshes with the mapped faces
+			if len(h.list) > 0 {
+				c := h.real.Center()
+				lo, hi := h.real.Min(), h.real.Max()
+				off := lo.Mid(hi).Scale(-1)
+				var want []*tri
+				for _, t := range h.list {
+					want = append(want, &tri{t[0].Add(off), t[1].Add(off), t[2].Add(off)})
+				}
+				if fmt.Sprint(faceValues(c.TriangleSlice())) != fmt.Sprint(faceValues(want)) {
+					return h.fail("center", "Center() does not hold the current faces translated by minus the midpoint of the bounds")
+				}
+				tr := h.real.Transform(&model3d.Translate{Offset: model3d.XYZ(1, 2, 4)})
+				want = want[:0]
+				for _, t := range h.list {
+					o := model3d.XYZ(1, 2, 4)
+					want = append(want, &tri{t[0].Add(o), t[1].Add(o), t[2].Add(o)})
+				}
+				if fmt.Sprint(faceValues(tr.TriangleSlice())) != fmt.Sprint(faceValues(want)) {
+					return h.fail("transform", "Transform(Translate) does not hold the translated current faces")
+				}
+				h.log("Center+Transform")
+			}
 		}
 		now := h.real.VerifHasVertexIndex()
 		switch {
